@@ -839,7 +839,12 @@ impl KotoVm {
                     self.execution_state = ExecutionState::Suspended;
                     return Ok(value);
                 }
-                Err(error) => match self.pop_call_stack_on_error(error.clone(), true) {
+                // Timeouts that were raised in a nested execution (e.g. in a function called by a
+                // native iterator adaptor) arrive here as ordinary errors, they must not be caught
+                Err(error) => match self.pop_call_stack_on_error(
+                    error.clone(),
+                    !matches!(error.error, ErrorKind::Timeout(_)),
+                ) {
                     Ok((recover_register, ip)) => {
                         let catch_value = match error.error {
                             ErrorKind::KotoError { thrown_value, .. } => thrown_value,
